@@ -114,15 +114,22 @@ package sql
 //@   modifies nothing
 //@   ensures fresh(result) && result.col == col && result.direction == direction
 
-//@ func NewGenericLogicalOp
+//@ func NewGenericLogicalOp [C13]
 //@   modifies nothing
 //@   ensures fresh(result) && result.fn == fn && len(result.clauses) == len(clauses)
+//@   ensures operands: forall k int :: 0 <= k && k < len(clauses) ==> result.clauses[k] == clauses[k]
+//@   loop 1:
+//@     invariant len(_clauses) == len(clauses)
+//@     invariant forall k int :: 0 <= k && k <= rangeindex ==> _clauses[k] == clauses[k]
+//@     modifies elems(_clauses)
 //@ func And [C13]
 //@   modifies nothing
 //@   ensures fresh(result) && result.fn == "and" && len(result.clauses) == len(clauses)
+//@   ensures operands: forall k int :: 0 <= k && k < len(clauses) ==> result.clauses[k] == clauses[k]
 //@ func Or [C13]
 //@   modifies nothing
 //@   ensures fresh(result) && result.fn == "or" && len(result.clauses) == len(clauses)
+//@   ensures operands: forall k int :: 0 <= k && k < len(clauses) ==> result.clauses[k] == clauses[k]
 //@ func Neq [C13]
 //@   modifies nothing
 //@   ensures fresh(result) && result.fn == "!=" && len(result.clauses) == 2 && result.clauses[0] == left && result.clauses[1] == right
